@@ -12,7 +12,7 @@ from lib import common, scratch, runner
 from lib.tlc import run_tlc, require_ok, MachineryError
 
 PID = "C05"
-INVS = ["RaiseIff", "CollectIff", "FailIff", "PrintIff", "StopIff", "ReachIff", "NoMatchOnError", "GoodLinesReturned"]
+INVS = ["RaiseIff", "CollectIff", "EveryErrorHandled", "FailIff", "PrintIff", "StopIff", "ReachIff", "NoMatchOnError", "GoodLinesReturned"]
 ORDER = ["raise", "collect", "stop", "fail", "print", "quiet"]
 COMPONENT = {
     "argtop": ("add(#1, 1)", "x"),
@@ -26,7 +26,7 @@ COMPONENT = {
 
 def _cfg(nlines, overrides):
     inv = "\n".join(f"INVARIANT {i}" for i in INVS + ["Emit"])
-    return f'CONSTANT NLines = {nlines}\nCONSTANT Overrides = "{overrides}"\nINIT Init\nNEXT Next\n{inv}\nCHECK_DEADLOCK FALSE\n'
+    return f'CONSTANT NLines = {nlines}\nCONSTANT Overrides = "{overrides}"\nCONSTANT MaxComps = 2\nINIT Init\nNEXT Next\n{inv}\nCHECK_DEADLOCK FALSE\n'
 
 
 def _vm_comment(vm):
@@ -47,7 +47,8 @@ def _replay(rec):
     rows = [["r%d" % i, badcell if i in rec["bad"] else "2"] for i in range(n)]
     path = os.path.join(d, "f.csv")
     runner.write_csv(path, rows)
-    text = f"{_vm_comment(vm)}${path}[*][ {comp} ]"
+    comps = [comp] + [comp.replace("@v", f"@v{i}") for i in range(1, rec.get("ncomp", 1))]
+    text = f"{_vm_comment(vm)}${path}[*][ {' '.join(comps)} ]"
     cfgobj = None
     if policy:
         scratch.set_policy(", ".join(policy))
@@ -66,6 +67,7 @@ def _replay(rec):
         "considered": len(events),
         "returned": [e["k"] for e in events if e["ret"]],
         "error_lines": sorted({e.line_count for e in errs}),
+        "error_counts": {str(k): sum(1 for e in errs if e.line_count == k) for k in sorted({e.line_count for e in errs})},
         "valid": bool(p.is_valid),
         "raised": out["raised"] is not None,
         "raised_class": out["raised"],
@@ -81,6 +83,12 @@ def _replay(rec):
         "printed_lines": sorted(set(rec["printed"])),
     }
     bad = [k for k in exp if got[k] != exp[k]]
+    # one record per raised error (kinds that raise exactly one error per component), at least that many for nested errors
+    for ln in set(rec["errors"]):
+        want = sum(1 for x in rec["errors"] if x == ln)
+        have = got["error_counts"].get(str(ln), 0)
+        if (have != want and rec["kind"] != "nested") or have < want:
+            bad.append(f"error_count_line_{ln}: {have} != {want}")
     if rec["considered"] < n and got["stopped"] != (rec["stopped"] or False) and not rec["raised"]:
         bad.append("stopped")
     if rec["raised"] and got["raised_class"] not in (None, "MatchException"):
@@ -116,7 +124,7 @@ def main(tier):
     rep.traces = len(recs)
     rep.evaluations = len(recs)
     for r in recs:
-        rep.nontrivial_case((tuple(sorted(r["policy"])), json.dumps(r["vm"], sort_keys=True), r["kind"], tuple(r["bad"])))
+        rep.nontrivial_case((tuple(sorted(r["policy"])), json.dumps(r["vm"], sort_keys=True), r["kind"], tuple(r["bad"]), r.get("ncomp", 1)))
     for r in recs[:: max(1, len(recs) // 4)][:4]:
         rep.sample({k: r[k] for k in ("policy", "vm", "kind", "bad", "considered", "returned", "errors", "valid", "raised")})
     for d in bad:
